@@ -217,14 +217,16 @@ where
             );
         }
 
-        // spawn a thread to forward the fingerprints to check
-        handles.push(std::thread::spawn(move || {
+        // spawn a thread to forward the fingerprints to check. It only ends once the checker (and
+        // thereby the sending half of the channel) is dropped, so its handle must not be part of
+        // `handles`: `join()` would otherwise never return.
+        std::thread::spawn(move || {
             for fingerprint in controlflow_to_check_receiver {
                 for sender in &controlflow_channels {
                     let _ = sender.send(fingerprint);
                 }
             }
-        }));
+        });
 
         OnDemandChecker {
             model,
